@@ -52,7 +52,9 @@ reap_worker(void *unused)
 				void *ptr;
 				ptr  = ((char *) node) - offset;
 				node = node->rn_next;
+				NNI_VERIF_PT(NNI_VP_REAP_BEFORE_FUNC);
 				func(ptr);
+				NNI_VERIF_EV(NNI_VE_REAP_END, ptr, 0, 0);
 			}
 			nni_mtx_lock(&reap_mtx);
 		}
@@ -80,6 +82,7 @@ nni_reap(nni_reap_list *rl, void *item)
 		reap_list     = rl;
 	}
 	reap_empty    = false;
+	NNI_VERIF_EV(NNI_VE_REAP_BEGIN, item, 0, 0);
 	node          = (void *) ((char *) item + rl->rl_offset);
 	node->rn_next = rl->rl_nodes;
 	rl->rl_nodes  = node;
